@@ -30,4 +30,9 @@ theorem gen_exclusions_as_read :
     Caco3Paths.exclNames = Golden.exclNames ∧ Caco3Paths.exclSuffixes = Golden.exclSuffixes ∧
     Caco3Paths.skipDirs = Golden.skipDirs := by decide
 
+/-- a select is recursive exactly when it is `**` or ends in `/**` (what `selectOne` models);
+    `x**`, `**x`, `a/**/b` are ordinary globs -/
+theorem gen_recursive_select_test :
+    Caco3Paths.recursiveSelectTest = "strings.HasSuffix(sel, \"/**\") || sel == \"**\"" := by decide
+
 end PubModel.C12
